@@ -309,6 +309,7 @@ class WebSocket(object):
         """
         if self.is_closed:
             return
+        state = self.state
         try:
             for message in self.stream.feed(data):
                 if isinstance(message, Response):
@@ -355,7 +356,12 @@ class WebSocket(object):
             # The generator has exited prematurely, due to an exception
             # handling the event.
             log.warning('disconnecting websocket')
-            self.on_disconnect()
+            if state is self.state:
+                self.on_disconnect()
+            elif state.session is not None:
+                # connect() has been called again since; only release
+                # the abandoned connection, not the new one.
+                state.session.close()
 
     def build_request(self):
         """Get the websocket request (in bytes).
